@@ -432,7 +432,7 @@ Definition act_ok (k : kind) (act : option nat) (s : state) (q : list req) : Pro
 Definition grant (t : Z) (e : req) : req := mkReq (rid e) (rproc e) (rprio e) (rtime e) (rpre e) (Some t).
 Definition grant_state (s : state) (e : req) : state :=
   mkState (users s ++ [grant (now s) e]) (queue s) (getq s) (pending s ++ [EReq (rid e)]) (granted s ++ [rid e])
-          (intrs s) (next_id s) (now s).
+          (intrs s) (dead s) (next_id s) (now s).
 
 Lemma res_do_put_eq : forall cap s e,
   res_do_put cap s e = if length (users s) <? cap then (grant_state s e, true, true) else (s, false, false).
@@ -474,13 +474,13 @@ Proof.
     assert (kle e h) by (eapply rank_kle; [|apply He; exact Hh]; discriminate). exact H0.
 Qed.
 
-Definition evict_state (s : state) (w e : req) : state :=
-  add_intr (set_users s (remove_id (rid w) (users s))) (mkIntr w e).
+Definition evict_state (s : state) (w e : req) (notified : bool) : state :=
+  add_intr (set_users s (remove_id (rid w) (users s))) (mkIntr w e notified).
 
-Lemma evict_I : forall cap s w e q, QI KPreempt cap s (e :: q) -> In w (users s) ->
-  key_ltb (rkey e) (rkey w) = true -> rpre e = true -> QI KPreempt cap (evict_state s w e) (e :: q).
+Lemma evict_I : forall cap s w e b q, QI KPreempt cap s (e :: q) -> In w (users s) ->
+  key_ltb (rkey e) (rkey w) = true -> rpre e = true -> QI KPreempt cap (evict_state s w e b) (e :: q).
 Proof.
-  intros cap s w e q H Hw Hlt Hpre. destruct H. unfold evict_state. constructor; simpl.
+  intros cap s w e b q H Hw Hlt Hpre. destruct H. unfold evict_state. constructor; simpl.
   - pose proof (remove_id_length_le (rid w) (users s)); lia.
   - exact i_getq0.
   - apply nodup_remove_l; exact i_ids0.
@@ -495,9 +495,9 @@ Proof.
   - intros r Hr. apply i_since0. eapply remove_id_in; exact Hr.
 Qed.
 
-Lemma evict_act_ok : forall act s w e q, act_ok KPreempt act s q -> act_ok KPreempt act (evict_state s w e) q.
+Lemma evict_act_ok : forall act s w e b q, act_ok KPreempt act s q -> act_ok KPreempt act (evict_state s w e b) q.
 Proof.
-  intros act s w e q H Hk. specialize (H Hk). destruct act as [p|]; [|exact I].
+  intros act s w e b q H Hk. specialize (H Hk). destruct act as [p|]; [|exact I].
   intros u Hu. apply H. simpl in Hu. eapply remove_id_in; exact Hu.
 Qed.
 
@@ -543,17 +543,18 @@ Proof.
   assert (Hnot : forall a, act = Some a -> a =? rproc w = false).
   { intros a Ea. apply Nat.eqb_neq. intros Heq. subst act. specialize (Hact eq_refl). simpl in Hact.
     rewrite (Hact w Hw (eq_sym Heq) e (or_introl eq_refl)) in Elt. discriminate. }
-  assert (Hev : exists s' b, Some (res_do_put cap (add_intr (set_users s (remove_id (rid w) (users s))) (mkIntr w e)) e) = Some (s', b, b) /\
+  assert (Hev : forall nb, exists s' b, Some (res_do_put cap (add_intr (set_users s (remove_id (rid w) (users s))) (mkIntr w e nb)) e) = Some (s', b, b) /\
        if b then QI KPreempt cap s' q /\ act_ok KPreempt act s' q /\ granted s' = granted s ++ [rid e]
               /\ pending s' = pending s ++ [EReq (rid e)] /\ next_id s' = next_id s /\ now s' = now s
        else s' = s /\ cap <= length (users s)).
-  { apply Hres; try reflexivity.
-    - apply evict_I; assumption.
-    - apply evict_act_ok; exact Hact.
+  { intros nb. apply Hres; try reflexivity.
+    - apply (evict_I cap s w e nb q); assumption.
+    - apply (evict_act_ok act s w e nb); exact Hact.
     - intros E. exfalso. simpl in E. apply Nat.ltb_ge in E.
       assert (has_id (rid w) (users s) = true) by (apply has_id_in; apply in_map; exact Hw).
       pose proof (remove_id_length _ _ H). destruct HI. lia. }
-  destruct act as [a|]; [rewrite (Hnot a eq_refl)|]; exact Hev.
+  destruct (is_dead s (rproc w)); [apply Hev|].
+  destruct act as [a|]; [rewrite (Hnot a eq_refl)|]; apply Hev.
 Qed.
 
 (* the scan of _trigger_put: it calls _do_put on the head of the queue until one call fails *)
@@ -606,7 +607,7 @@ Proof.
 Qed.
 
 Definition release_state (s : state) (r : nat) : state :=
-  mkState (remove_id r (users s)) (queue s) [] (pending s ++ [ERel (next_id s)]) (granted s) (intrs s) (S (next_id s)) (now s).
+  mkState (remove_id r (users s)) (queue s) [] (pending s ++ [ERel (next_id s)]) (granted s) (intrs s) (dead s) (S (next_id s)) (now s).
 
 Lemma release_eq : forall s r, getq s = [] -> release s r = Some (release_state s r).
 Proof. intros s r H. unfold release, trigger_get. simpl. rewrite H. reflexivity. Qed.
@@ -642,13 +643,13 @@ Definition qscan (k : kind) (s : state) (a : action) : list req :=
   end.
 
 Lemma request_QI : forall k cap s p prio pre, QI k cap s (queue s) ->
-  forallb (fun r => negb (rproc r =? p)) (users s ++ queue s) = true ->
+  forallb (fun r => negb (rproc r =? p)) (users s ++ queue s) && negb (is_dead s p) = true ->
   let e := new_req s p prio pre in
   QI k cap (bump_id (set_queue s (enqueue k (queue s) e))) (enqueue k (queue s) e)
   /\ act_ok k (Some p) (bump_id (set_queue s (enqueue k (queue s) e))) (enqueue k (queue s) e).
 Proof.
   intros k cap s p prio pre H Hadm e. destruct H.
-  rewrite forallb_forall in Hadm.
+  apply andb_true_iff in Hadm. destruct Hadm as [Hadm _]. rewrite forallb_forall in Hadm.
   assert (P : Permutation (users s ++ enqueue k (queue s) e) (e :: users s ++ queue s)).
   { rewrite (enqueue_perm k (queue s) e). symmetry. apply Permutation_middle. }
   split.
@@ -682,7 +683,7 @@ Proof.
   destruct (existsb (Nat.eqb r) (granted s)) eqn:Eg.
   - exists s, []. simpl. rewrite app_nil_r. split; [reflexivity|]. split; [split; assumption|].
     split; [destruct HI; assumption|]. split; reflexivity || (split; reflexivity).
-  - simpl in Hadm. apply existsb_exists in Hadm. destruct Hadm as (x & Hx & E).
+  - apply andb_true_iff in Hadm. destruct Hadm as [Hadm _]. simpl in Hadm. apply existsb_exists in Hadm. destruct Hadm as (x & Hx & E).
     apply andb_true_iff in E. destruct E as [E1 E2]. apply Nat.eqb_eq in E1, E2.
     assert (Hh : has_id r (queue s) = true) by (apply has_id_in; rewrite <- E1; apply in_map; exact Hx).
     rewrite Hh.
@@ -713,7 +714,7 @@ Lemma step_ok : forall k cap s a, 1 <= cap -> Inv k cap s -> adm s a = true ->
   exists s' new, step k cap s a = Some s' /\ Inv k cap s' /\ rsorted k (qscan k s a)
     /\ qscan k s a = new ++ queue s' /\ granted s' = granted s ++ map rid new.
 Proof.
-  intros k cap s a Hcap HInv Hadm. destruct a as [p prio pre|r|p r|p r|e|t].
+  intros k cap s a Hcap HInv Hadm. destruct a as [p prio pre|r|p r|p r|e|t|p].
   - (* request *)
     destruct HInv as [HI HJ]. simpl in Hadm.
     destruct (request_QI k cap s p prio pre HI Hadm) as [HI0 Hact].
@@ -753,6 +754,10 @@ Proof.
     + destruct HI. constructor; simpl; try assumption.
       intros x Hx. destruct (i_since0 x Hx) as (t0 & E & Hle). exists t0; split; [exact E|lia].
     + exact HJ.
+  - (* a process ends *)
+    exists (add_dead s p), []. simpl. rewrite app_nil_r. destruct HInv as [HI HJ].
+    split; [reflexivity|]. split; [|split; [destruct HI; assumption|split; reflexivity]].
+    split; simpl; [eapply QI_ext; [..|exact HI]; reflexivity|exact HJ].
 Qed.
 
 Lemma init_Inv : forall k cap t0, Inv k cap (init t0).
@@ -858,7 +863,7 @@ Proof.
 Qed.
 
 Definition released (s : state) : state :=
-  mkState (users s) (queue s) (getq s) (pending s ++ [ERel (next_id s)]) (granted s) (intrs s) (S (next_id s)) (now s).
+  mkState (users s) (queue s) (getq s) (pending s ++ [ERel (next_id s)]) (granted s) (intrs s) (dead s) (S (next_id s)) (now s).
 
 Lemma release_nonuser : forall k cap s r, Inv k cap s -> ~ In r (map rid (users s)) ->
   step k cap s (ARelease r) = Some (released s).
@@ -898,7 +903,7 @@ Qed.
 
 Definition preempted_state (s : state) (l1 l2 : list req) (w e : req) : state :=
   mkState ((l1 ++ l2) ++ [grant (now s) e]) (queue s) (getq s) (pending s ++ [EReq (rid e)]) (granted s ++ [rid e])
-          (intrs s ++ [mkIntr w e]) (next_id s) (now s).
+          (intrs s ++ [mkIntr w e (negb (is_dead s (rproc w)))]) (dead s) (next_id s) (now s).
 
 (* One call of PreemptiveResource._do_put, exactly.  With a free slot: plain grant.  Full: let w be the LAST
    user of maximal key (users = l1 ++ w :: l2, nothing in l1 above w, everything in l2 strictly below);
@@ -932,12 +937,14 @@ Proof.
     assert (Hrem : remove_id (rid w) (users s) = l1 ++ l2).
     { rewrite Hu. apply remove_id_split. rewrite Hu, map_app in Hnd. simpl in Hnd.
       apply NoDup_remove_2 in Hnd. intros Hc; apply Hnd; apply in_or_app; left; exact Hc. }
-    assert (Hres : res_do_put cap (add_intr (set_users s (remove_id (rid w) (users s))) (mkIntr w e)) e
-                   = (preempted_state s l1 l2 w e, true, true)).
-    { rewrite res_do_put_eq. simpl. rewrite Hrem.
+    assert (Hres : forall nb, res_do_put cap (add_intr (set_users s (remove_id (rid w) (users s))) (mkIntr w e nb)) e
+                   = (mkState ((l1 ++ l2) ++ [grant (now s) e]) (queue s) (getq s) (pending s ++ [EReq (rid e)]) (granted s ++ [rid e])
+                              (intrs s ++ [mkIntr w e nb]) (dead s) (next_id s) (now s), true, true)).
+    { intros nb. rewrite res_do_put_eq. simpl. rewrite Hrem.
       assert (length (l1 ++ l2) <? cap = true).
       { apply Nat.ltb_lt. rewrite Hu in Elen. rewrite app_length in *. simpl in Elen. lia. }
       rewrite H. reflexivity. }
+    unfold preempted_state. destruct (is_dead s (rproc w)); [rewrite Hres; reflexivity|]. simpl.
     destruct act as [a|]; [|rewrite Hres; reflexivity].
     assert (a =? rproc w = false) by (apply Nat.eqb_neq; intros Hc; exact (Hact a eq_refl w Hw (eq_sym Hc))).
     rewrite H, Hres. reflexivity.
@@ -961,15 +968,16 @@ Theorem preempt_request : forall cap t0 acts s p prio pre, 1 <= cap ->
   if length (users s) <? cap then
     step KPreempt cap s (ARequest p prio pre) =
       Some (mkState (users s ++ [grant (now s) e]) [] [] (pending s ++ [EReq (next_id s)]) (granted s ++ [next_id s])
-                    (intrs s) (S (next_id s)) (now s))
+                    (intrs s) (dead s) (S (next_id s)) (now s))
   else exists w l1 l2, users s = l1 ++ w :: l2
        /\ (forall x, In x l1 -> key_ltb (rkey w) (rkey x) = false)
        /\ (forall x, In x l2 -> key_ltb (rkey x) (rkey w) = true)
        /\ step KPreempt cap s (ARequest p prio pre) =
             if pre && key_ltb (rkey e) (rkey w)
             then Some (mkState ((l1 ++ l2) ++ [grant (now s) e]) [] [] (pending s ++ [EReq (next_id s)])
-                               (granted s ++ [next_id s]) (intrs s ++ [mkIntr w e]) (S (next_id s)) (now s))
-            else Some (mkState (users s) [e] [] (pending s) (granted s) (intrs s) (S (next_id s)) (now s)).
+                               (granted s ++ [next_id s]) (intrs s ++ [mkIntr w e (negb (is_dead s (rproc w)))])
+                               (dead s) (S (next_id s)) (now s))
+            else Some (mkState (users s) [e] [] (pending s) (granted s) (intrs s) (dead s) (S (next_id s)) (now s)).
 Proof.
   intros cap t0 acts s p prio pre Hcap Hr Hadm Hq e.
   destruct (reach_Inv KPreempt cap t0 acts s Hcap Hr) as [HI _]. destruct HI.
@@ -988,7 +996,7 @@ Proof.
   change (users s0) with (users s) in Hcall. specialize (Hcall i_cap0 i_ids0).
   assert (Hnp : forall p0, Some p = Some p0 -> forall u, In u (users s) -> rproc u <> p0).
   { intros p0 E u Hu. inversion E; subst p0. simpl in Hadm. rewrite Hq, app_nil_r in Hadm.
-    rewrite forallb_forall in Hadm. specialize (Hadm u Hu). apply negb_true_iff, Nat.eqb_neq in Hadm. exact Hadm. }
+    apply andb_true_iff in Hadm. destruct Hadm as [Hadm _]. rewrite forallb_forall in Hadm. specialize (Hadm u Hu). apply negb_true_iff, Nat.eqb_neq in Hadm. exact Hadm. }
   specialize (Hcall Hnp). rewrite Hstep.
   destruct (length (users s) <? cap).
   - rewrite Hcall. unfold set_queue, grant_state, s0, bump_id; simpl. rewrite i_getq0. reflexivity.
@@ -1037,6 +1045,11 @@ Proof. eexists. split; [vm_compute; reflexivity|]. repeat split. discriminate. Q
 (* a state where preempt_request applies in its evicting branch *)
 Example ex_preempt : exists s, run KPreempt 1 (init 0) [ARequest 0 5 false] = Some s
   /\ adm s (ARequest 1 1 true) = true /\ queue s = [] /\ (length (users s) <? 1) = false.
+Proof. eexists. split; [vm_compute; reflexivity|]. repeat split. Qed.
+
+(* the holder's process ends without releasing; a preempting request takes the slot over, nobody is notified *)
+Example ex_dead_holder : exists s, run KPreempt 1 (init 0) [ARequest 0 3 true; AEnd 0; ARequest 1 0 true] = Some s
+  /\ map rid (users s) = [1] /\ queue s = [] /\ map inotified (intrs s) = [false].
 Proof. eexists. split; [vm_compute; reflexivity|]. repeat split. Qed.
 
 Example ex_fifo : exists s, run KRes 2 (init 0)
